@@ -9,6 +9,15 @@ use crate::util::Rng;
 /// input, the window right after it has that value).
 pub fn word_for_roll(rng: &mut Rng, target: u32) -> [u8; 7] {
     loop {
+        if let Some(w) = word_for_roll_bounded(rng, target, 1 << 20) {
+            return w;
+        }
+    }
+}
+
+/// The same with a bounded effort (about 9000 tries are needed on average).
+pub fn word_for_roll_bounded(rng: &mut Rng, target: u32, tries: u32) -> Option<[u8; 7]> {
+    for _ in 0..tries {
         // guess h1+h2, then solve the shift/xor part for the rest, low symbols first
         let s = rng.below(8926) as u32;
         let h3 = target.wrapping_sub(s) as u64;
@@ -23,9 +32,10 @@ pub fn word_for_roll(rng: &mut Rng, target: u32) -> [u8; 7] {
             acc &= 0xffff_ffff;
         }
         if oracle::roll_of_window(&w) == target {
-            return w;
+            return Some(w);
         }
     }
+    None
 }
 
 thread_local! {
@@ -640,4 +650,102 @@ pub fn asym_pair(rng: &mut Rng, cap2: usize) -> (Model, Model) {
     } else {
         (b, a)
     }
+}
+
+// ---------------------------------------------------------------- extreme rolling-hash values
+
+/// Rolling-hash values at the edges of the trigger decode (h_org = value + 1, wrapping).
+pub fn extreme_roll_values() -> Vec<u32> {
+    let mut v: Vec<u32> = vec![
+        0xFFFF_FFFE, 0xFFFF_FFFF, 0xFFFF_FFFD, 0xFFFF_FFFC, 0xFFFF_FFFB, 0, 1, 2, 5, 0x7FFF_FFFF, 0x8000_0000, 0x8000_0001,
+        0xAAAA_AAA9, 0xAAAA_AAAA, 0xAAAA_AAAB, 0x5555_5554, 0x5555_5555, 0x5555_5556, 0xFFFF_FFFA, 0xFFFF_FFF8, 3, 4, 6, 8,
+    ];
+    for k in 0..=30u32 {
+        let unit = 3u64 << k;
+        v.push((unit - 1) as u32); // 3*2^k - 1
+        let m = (1u64 << 32) / unit; // the largest multiple below 2^32
+        v.push((unit * m - 1) as u32);
+        if m > 1 {
+            v.push((unit * (m - 1) - 1) as u32);
+        }
+    }
+    v.sort_unstable();
+    v.dedup();
+    v
+}
+
+thread_local! {
+    static EXTREME: std::cell::RefCell<Vec<(u32, [u8; 7])>> = std::cell::RefCell::new(Vec::new());
+}
+
+/// (rolling-hash value, a 7-byte window with that value), built once with a fixed seed.
+pub fn extreme_words() -> Vec<(u32, [u8; 7])> {
+    EXTREME.with(|t| {
+        let mut t = t.borrow_mut();
+        if t.is_empty() {
+            let mut rng = Rng::new(0x5eed_0f_e87e3e);
+            for val in extreme_roll_values() {
+                if let Some(w) = word_for_roll_bounded(&mut rng, val, 1 << 21) {
+                    t.push((val, w));
+                }
+            }
+        }
+        t.clone()
+    })
+}
+
+/// An input made of such windows: alone, repeated, or embedded at random offsets in
+/// random / zero / text filler.  The description names the windows used.
+pub fn extreme_input(rng: &mut Rng) -> (Vec<u8>, String) {
+    let table = extreme_words();
+    // the values that matter most come first in the draw
+    let pick = |rng: &mut Rng| -> (u32, [u8; 7]) {
+        if rng.chance(1, 2) {
+            let top = [0xFFFF_FFFEu32, 0xFFFF_FFFF, 0xFFFF_FFFD, 0xFFFF_FFFC, 0xFFFF_FFFB, 0, 1, 2];
+            let want = *rng.pick(&top);
+            if let Some(e) = table.iter().find(|e| e.0 == want) {
+                return *e;
+            }
+        }
+        *rng.pick(&table)
+    };
+    let mut used: Vec<String> = Vec::new();
+    let mut note = |e: &(u32, [u8; 7])| {
+        if used.len() < 6 {
+            used.push(format!("{:#010x}={}", e.0, crate::util::hex(&e.1)));
+        }
+    };
+    let mut out: Vec<u8> = Vec::new();
+    let shape = rng.below(5);
+    match shape {
+        0 => {
+            let e = pick(rng);
+            note(&e);
+            out.extend_from_slice(&e.1);
+        }
+        1 => {
+            let e = pick(rng);
+            note(&e);
+            for _ in 0..rng.range(2, 70) {
+                out.extend_from_slice(&e.1);
+            }
+        }
+        _ => {
+            let style = *rng.pick(&[0u8, 4, 5, 3, 1]);
+            let n = rng.range(1, 40);
+            for _ in 0..n {
+                let gap = *rng.pick(&[0usize, 0, 1, 3, 6, 7, 8, 30, 200]);
+                fill(rng, &mut out, gap, style);
+                let e = pick(rng);
+                note(&e);
+                out.extend_from_slice(&e.1);
+            }
+            if rng.chance(1, 2) {
+                let tail = rng.range(0, 300);
+                fill(rng, &mut out, tail, style);
+            }
+        }
+    }
+    let desc = format!("windows with extreme rolling-hash values (value=window: {}{}), shape {}", used.join(", "), if used.len() == 6 { ", ..." } else { "" }, ["alone", "repeated", "embedded", "embedded", "embedded"][shape as usize]);
+    (out, desc)
 }
